@@ -77,10 +77,11 @@ def mk_events(thorough):
         evs.append(["run", list(sw), "fresh"])
     evs.append(["run", list(DEFAULT), "shadow"])
     for j in range(len(CODES)):
-        # the four cacheall x $XONSH_CACHE_EVERYTHING combinations for every code string; in the
-        # thorough tier all 16 combinations for code string 1 (the gating cannot depend on the text)
-        code_sw = ALL_SW if (thorough and j == 1) else CODE_SW_QUICK
-        for mode in ("single", "exec"):
+        # the four cacheall x $XONSH_CACHE_EVERYTHING combinations for every code string and mode; in the
+        # thorough tier all 16 combinations for code string 1 on the -c path (mode single) - the gating
+        # cannot depend on the text
+        for mode in MODES:
+            code_sw = ALL_SW if (thorough and j == 1 and mode == "single") else CODE_SW_QUICK
             for sw in code_sw:
                 evs.append(["code", j, mode, list(sw), "fresh"])
     for mode in ("single", "exec"):
@@ -403,7 +404,9 @@ def run(ctx):
     _THOROUGH = ctx.thorough
     tables.ensure_tables()
     depth = ctx.pick(4, 6)
-    r = seqx.bfs(_factory, depth, ctx, budget_s=ctx.pick(40, 700), chunk=ctx.pick(2, 8))
+    # seqx checks the budget before each level; the last level costs about 3x everything before it, so
+    # on an overloaded machine depth 6 is not started (reported as caps_hit / depth_completed 5)
+    r = seqx.bfs(_factory, depth, ctx, budget_s=ctx.pick(40, 240), chunk=ctx.pick(2, 8))
     ctx.add_violations(r["violations"])
     h = seqx._H
     for s in r["sample_histories"]:
